@@ -350,6 +350,7 @@ def run_property(prop, tier, seed, procs):
         'vacuity': {'canaries_not_provable_as_required': canary_ok, 'canaries_provable_BAD': len(canary_bad)},
         'undecided': [n for _, n, _ in undecided], 'unsupported': [q for q, _ in unsupported],
         'known_findings_hit': [k.get('what') for k in known_hits],
+        'native_only_clauses': [{'function': q, 'clause': nm, 'status': 'bounded stand-in: evaluated on generated inputs only, not proved'} for q in targets for nm, _ in getattr(contracts.REG[q], 'native_ensures_l', [])],
         'native_differential_search': {'inputs_tried': native_tried, 'violations_found': len(native_found),
                                        'note': 'bounded stand-in / cross-check only: never counted as proved'},
         'samples': samples,
